@@ -1209,7 +1209,7 @@ impl Cpu {
             }
             BPT | HALT => {
                 // TODO: Breakpoint Trap
-                unimplemented!()
+                return Err(CpuError::Exception(CpuException::IllegalOpcode));
             }
             BRH => {
                 pc_increment = sign_extend_halfword(self.ir.operands[0].embedded as u16) as i32;
